@@ -201,6 +201,7 @@ const CORPUS: &[(&str, &str, &str, &str)] = &[
     ("F3-empty-learned-value", "phonetic", "01000000001", ":)¹:er␛:e␛"),
     ("F3b-empty-learned-base-suffix", "phonetic", "01000000001", ":)¹:ke␛:ra␛:gulo␛"),
     ("F6-typed-leak", "probhat", "10100000000", "k/i⌫⌫m␛"),
+    ("commit-punctuation-only-candidate", "phonetic", "11000000000", ".¹k␛:)¹a␛(¹ami␛"),
     ("F8-backslash-english", "phonetic", "11000000000", "\\␛%\\␛"),
     ("F9-two-learned-bases", "phonetic", "01000000000", "kor¹kore¹korei␛"),
     ("F18-zwnj-emoji-name", "probhat", "00100100000", "fUl␛"),
@@ -223,8 +224,11 @@ fn run_corpus(env: &Env, rep: &mut Report, t: &mut Trace, lay: &Layouts) {
         let xdg = env.fresh_xdg(&case);
         let mut s = match Sess::new(t, &env.data, "c", &lp, opts, &xdg) { Some(s) => s, None => { rep.violation("C01", "panic", format!("corpus {}: context construction panicked", name), json!({"corpus": name})); continue; } };
         let phon = lp == PHONETIC;
+        // what is being composed, kept by the harness (phonetic: the auxiliary text must be exactly this)
+        let mut typed = String::new();
         for ch in script.chars() {
             let ctx = json!({"stream": "c01", "corpus": name, "layout": lp, "opts": opts.bits_str(), "script": script, "events": s.events});
+            match ch { '⌫' => { typed.pop(); } '␛' | '⏎' | '¹' | '²' | '³' => { typed.clear(); } '⏏' => {} c => { if code_for_char(c).is_some() { typed.push(c); } } }
             let o = match ch {
                 '⌫' => s.backspace(t, false),
                 '␛' => s.finish(t),
@@ -237,7 +241,7 @@ fn run_corpus(env: &Env, rep: &mut Report, t: &mut Trace, lay: &Layouts) {
             let on = s.imp.ongoing();
             if o == Obs::Panic { rep.violation("C01", "panic", format!("corpus {}: panic at {:?} of {:?}", name, ch, script), ctx); break; }
             if s.imp.slowest > TIME_BUDGET_S { rep.violation("C01", "slow-event", format!("corpus {}: the event {:?} (number {} of {:?}) took {:.2}s", name, ch, s.events.len(), script, s.imp.slowest), ctx.clone()); break; }
-            check_obs(rep, &ctx, phon, None, &o, on, true, None);
+            check_obs(rep, &ctx, phon, if phon { Some(typed.as_str()) } else { None }, &o, on, true, None);
         }
         rep.eval(Some(&case));
         rep.count("corpus-case");
